@@ -562,6 +562,9 @@ class SChoice:
                       [getattr(v, name) for v in self._values])
 
 
+NAMED = {}
+
+
 def name_term(r):
     """Give a large term a fresh name (r' == term asserted once), so that the
     incremental solver internalises it once instead of with every query."""
@@ -569,6 +572,7 @@ def name_term(r):
     p = cur()
     v = z3.BitVec(p.fresh_name('t'), core.W)
     p.assume(v == r.e)
+    NAMED[v.get_id()] = r.e          # (for code that inspects the term)
     return SInt(v, r.lo, r.hi)
 
 
